@@ -84,6 +84,15 @@ class ConvexSpheropolyhedron(Shape3D):
         return self._polyhedron
 
     @property
+    def centroid(self):
+        """:math:`(3, )` :class:`numpy.ndarray` of float: Get or set the centroid of the shape."""  # noqa: E501
+        return self._polyhedron.centroid
+
+    @centroid.setter
+    def centroid(self, value):
+        self._polyhedron.centroid = value
+
+    @property
     def vertices(self):
         """Get the vertices of the spheropolyhedron."""
         return self.polyhedron.vertices
